@@ -1202,6 +1202,22 @@ pub fn gen_c02(tier: &str, seed: u64) -> Vec<Vec<String>> {
                 c.push(format!("LOG {l} {} _ {} {}", hexs(&tg), if mt { 1 } else { 0 }, hexs(&msg)));
             }
         }
+        // a run-time change to a specification that differs ONLY in the text filter, and back
+        if r.chance(1, 3) {
+            let mut rx2 = Some(r.pick(&REGEXES).to_string());
+            if rx2 == rx { rx2 = None; }
+            c.push(format!("BUILD u {} {}", filters_str(&fs), rx2.as_ref().map_or("_".into(), |x| format!("r{}", hexs(x)))));
+            for (id, x) in [("u", &rx2), ("s", &rx)] {
+                c.push(format!("SET {id}"));
+                for _ in 0..r.range(3, 6) {
+                    let tg = r.pick(&tgs).clone();
+                    let l = r.range(1, 5);
+                    let msg = r.pick_s(&MSGS).to_string();
+                    let mt = x.as_ref().map_or(true, |x| regex::Regex::new(x).unwrap().is_match(&msg));
+                    c.push(format!("LOG {l} {} _ {} {}", hexs(&tg), if mt { 1 } else { 0 }, hexs(&msg)));
+                }
+            }
+        }
         // brace targets with registered writers: gate/enabled query vs delivery (ceiling strictly above the level)
         for w in &wnames {
             let l = r.range(1, 5);
@@ -1223,6 +1239,13 @@ pub fn gen_c05(tier: &str, seed: u64) -> Vec<Vec<String>> {
     for k in 0..n_cases(tier, 300, 5000) {
         let mut r = root.fork();
         let mut c = vec![format!("CASE spec C05 {k}")];
+        // additional writers with their own ceilings (incl. ones below what the specifications
+        // enable): the gate after every change is the maximum over the active specification AND them
+        if r.chance(1, 3) {
+            for i in 0..r.range(1, 2) {
+                c.push(format!("WRITER {} {}", hexs(&format!("W{i}")), r.below(6)));
+            }
+        }
         let nspecs = r.range(2, 5);
         let mut all_names: Vec<String> = Vec::new();
         let mut ids = Vec::new();
